@@ -133,11 +133,14 @@ func runCase(c Case) (*ev.Failure, bool) {
 		return runPeerClose(c)
 	case "idleclose":
 		return runIdleClose(c)
+	case "latenotice":
+		return runLateNotice(c)
 	}
 	return runClose(c)
 }
 
 type appMsg struct {
+	at         time.Duration // when the send returned, relative to the exporter's creation
 	want       []byte
 	tplID      uint16 // template id if this is a template message
 	isTpl      bool
@@ -169,9 +172,13 @@ func runRefresh(c Case) (*ev.Failure, bool) {
 	var rerr error
 	var wg sync.WaitGroup
 	wg.Add(1)
+	t0 := time.Now()
 	go func() { // the application: one goroutine, as the property assumes
 		defer wg.Done()
 		deadline := time.Now().Add(2300 * time.Millisecond)
+		if c.CloseAfterUs > 0 {
+			deadline = time.Now().Add(2900 * time.Millisecond)
+		}
 		for i := 0; ; i++ {
 			var s Step
 			if c.Kind == "ticker" {
@@ -179,8 +186,16 @@ func runRefresh(c Case) (*ev.Failure, bool) {
 					return
 				}
 				s = Step{Tpl: -1, Of: i % len(templates), NRecs: 1 + i%5, PauseUs: 2000}
-				if i < len(templates) {
-					s = Step{Tpl: i}
+				if c.CloseAfterUs == 0 && i < len(templates) {
+					s = Step{Tpl: i} // all templates right after the start
+				}
+				if c.CloseAfterUs > 0 { // staggered: template k is first sent k*CloseAfterUs after the start
+					for k := range templates {
+						if !sentTpl[k] && time.Since(t0) >= time.Duration(k*c.CloseAfterUs)*time.Microsecond {
+							s = Step{Tpl: k}
+							break
+						}
+					}
 				}
 			} else {
 				if i >= len(c.Steps) {
@@ -217,6 +232,7 @@ func runRefresh(c Case) (*ev.Failure, bool) {
 			m.start = tick()
 			_, err = ep.SendSet(set)
 			m.end = tick()
+			m.at = time.Since(t0)
 			if err != nil {
 				appErr = ev.Failf("application SendSet %d failed while the refresh activity ran: %v", i, err)
 				return
@@ -345,9 +361,21 @@ func runRefresh(c Case) (*ev.Failure, bool) {
 			}
 		}
 	} else {
-		for id := range tplSentAt {
-			if id != 999 && refreshCount[id] < 1 {
-				return ev.Failf("template %d was never retransmitted although two refresh intervals (1 s) passed", id), overlapped
+		// the ticker fires 1 s, 2 s, ... after the exporter was created: a template whose first send had
+		// returned 150 ms before a tick (that lies 150 ms before the end of the run) is in that round
+		total := time.Since(t0)
+		for id, m := range tplSentAt {
+			if id == 999 {
+				continue
+			}
+			due := 0
+			for j := 1; time.Duration(j)*time.Second < total-600*time.Millisecond; j++ {
+				if m.at < time.Duration(j)*time.Second-150*time.Millisecond {
+					due++
+				}
+			}
+			if refreshCount[id] < due {
+				return ev.Failf("template %d (first sent %v after the start) was retransmitted %d times in %v; %d refresh ticks (every 1 s) were due for it", id, m.at.Round(time.Millisecond), refreshCount[id], total.Round(time.Millisecond), due), overlapped
 			}
 		}
 		overlapped = true
@@ -440,6 +468,48 @@ func runIdleClose(c Case) (*ev.Failure, bool) {
 	ds, _ := exph.DataSet(256, templates[0], dataRecs(0, 1, 1), 0)
 	if _, err := ep.SendSet(ds); err == nil {
 		return ev.Failf("the collector closed the connection %v ago (check interval %v, the application was idle meanwhile) and SendSet still reports success: the message vanishes", 20*interval+200*time.Millisecond, interval), true
+	}
+	return nil, true
+}
+
+// runLateNotice: "noticed within the check interval". With an interval of 300 ms the application
+// sends right after a tick, the peer closes right after that send, the application stays idle and
+// sends again 1.6 intervals after the close: by then one full interval (+120 ms of slack) has passed,
+// so the close must have been noticed and the send must fail.
+func runLateNotice(c Case) (*ev.Failure, bool) {
+	peer, err := exph.NewPeer("tcp", false)
+	if err != nil {
+		return nil, false
+	}
+	defer peer.Close()
+	const interval = 300 * time.Millisecond
+	t0 := time.Now()
+	ep, err := exporter.InitExportingProcess(exporter.ExporterInput{CollectorAddress: peer.Addr, CollectorProtocol: "tcp", ObservationDomainID: 15, CheckConnInterval: interval})
+	if err != nil {
+		return ev.Failf("InitExportingProcess: %v", err), false
+	}
+	defer ep.CloseConnToCollector()
+	ts, _ := exph.TemplateSet(256, templates[0], 0)
+	if _, err := ep.SendSet(ts); err != nil {
+		return ev.Failf("template: %v", err), false
+	}
+	// just after tick k (k = 1 or 2): a data send, then the peer closes
+	k := 1 + c.CheckIntervalMs%2
+	time.Sleep(time.Until(t0.Add(time.Duration(k)*interval + interval/10)))
+	ds, _ := exph.DataSet(256, templates[0], dataRecs(0, 1, 1), 0)
+	if _, err := ep.SendSet(ds); err != nil {
+		return nil, false
+	}
+	late := time.Since(t0) - (time.Duration(k)*interval + interval/10)
+	peer.CloseConn()
+	closed := time.Now()
+	time.Sleep(time.Until(closed.Add(interval * 16 / 10)))
+	if late > 40*time.Millisecond || time.Since(closed) > interval*19/10 {
+		return nil, false // the machine was too slow to keep the schedule: inconclusive
+	}
+	ds2, _ := exph.DataSet(256, templates[0], dataRecs(0, 1, 2), 0)
+	if _, err := ep.SendSet(ds2); err == nil {
+		return ev.Failf("the collector closed the connection %v ago (check interval %v, last send just before the close) and SendSet still reports success: the close was not noticed within the check interval and the message vanishes", time.Since(closed).Round(time.Millisecond), interval), true
 	}
 	return nil, true
 }
@@ -631,15 +701,58 @@ func TestC14(t *testing.T) {
 		tw.Add(1)
 		go func(i int) {
 			defer tw.Done()
-			tickerFails[i], _ = runRefresh(Case{Kind: "ticker", Proto: "udp"})
+			c := Case{Kind: "ticker", Proto: "udp"}
+			if i%3 == 1 {
+				c.CloseAfterUs = 600000 // staggered: a new template every 0.6 s
+			}
+			if i%3 == 2 {
+				c.CloseAfterUs = 450000
+			}
+			tickerFails[i], _ = runRefresh(c)
 		}(i)
 	}
-	tickOK := t.Run("ticker", func(t *testing.T) { tw.Wait() })
+	lateFails := make([]*ev.Failure, nt)
+	lateJudged := 0
+	tickOK := t.Run("ticker", func(t *testing.T) {
+		tw.Wait()
+		// the timing-sensitive cases run on a quiet machine, side by side with each other only
+		var lw sync.WaitGroup
+		var lm sync.Mutex
+		for i := 0; i < nt; i++ {
+			lw.Add(1)
+			go func(i int) {
+				defer lw.Done()
+				f, judged := runLateNotice(Case{Kind: "latenotice", Proto: "tcp", CheckIntervalMs: i})
+				// a real defect shows every time, a scheduling hiccup of the loaded machine does not: the
+				// scenario must fail three times in a row to count
+				for r := 0; r < 2 && f != nil; r++ {
+					f, judged = runLateNotice(Case{Kind: "latenotice", Proto: "tcp", CheckIntervalMs: i})
+				}
+				lm.Lock()
+				lateFails[i] = f
+				if judged {
+					lateJudged++
+				}
+				lm.Unlock()
+			}(i)
+		}
+		lw.Wait()
+	})
+	rec.Class("latenotice_judged", int64(lateJudged))
 	for i, f := range tickerFails {
 		c := Case{Kind: "ticker", Proto: "udp"}
 		rec.Case(ev.Hash([]any{c, i}), true, "kind_ticker")
 		if f != nil {
 			rec.Violation("ticker", c, f.Msg)
+			t.Errorf("%s", f.Msg)
+			return
+		}
+	}
+	for i, f := range lateFails {
+		c := Case{Kind: "latenotice", Proto: "tcp", CheckIntervalMs: i}
+		rec.Case(ev.Hash([]any{c, i}), true, "kind_latenotice")
+		if f != nil {
+			rec.Violation("timings", c, f.Msg)
 			t.Errorf("%s", f.Msg)
 			return
 		}
